@@ -6,7 +6,7 @@
    default binder, literal folding and sugar vs spelled-out literals concern the
    wbnf parser and the compiler (syntax/compile.go), which are not modelled: they
    are decided by the metamorphic run original-vs-rewritten on the implementation. *)
-From Arrai Require Import Base.Val Spec.SetAlg Eval.Interp Eval.Rewrite Proofs.EquivP Proofs.FuelP Proofs.SugarP Proofs.RelValP Proofs.CongrP Proofs.SubstP Gen.Prec Sys.Prec.
+From Arrai Require Import Base.Val Spec.SetAlg Eval.Interp Eval.Rewrite Proofs.EquivP Proofs.FuelP Proofs.SugarP Proofs.RelValP Proofs.CongrP Proofs.SubstP Proofs.DictSugarP Proofs.CongrSymP Gen.Prec Sys.Prec.
 
 Theorem C08_let_is_arrow :
   forall fuel rho p e1 e2,
@@ -213,3 +213,42 @@ Example C08_dict_sugar_probe :
   run 5 (EDictE [(ELit (vint 1), ELit (vint 2)); (ELit (vint 3), ELit (vint 4))]) =
   Ok (D (VSet [ventry (vint 1) (vint 2); ventry (vint 3) (vint 4)])).
 Proof. vm_compute. split; reflexivity. Qed.
+
+(* ---------- more on sugar and on simultaneous rewrites ---------- *)
+
+(* a dict literal whose keys are literals with pairwise different values has the same meaning as its spelled-out set,
+   so this sugar too may be spelled out at every position *)
+Theorem C08_dict_literal_same_meaning :
+  forall l, distinct_literal_keys l -> same_meaning (EDictE l) (spell_dict l).
+Proof. exact dict_literal_same_meaning. Qed.
+Print Assumptions C08_dict_literal_same_meaning.
+
+Theorem C08_dict_sugar_at_every_position :
+  forall l, distinct_literal_keys l -> forall C, same_data_meaning (plug C (EDictE l)) (plug C (spell_dict l)).
+Proof. exact dict_sugar_at_position. Qed.
+Print Assumptions C08_dict_sugar_at_every_position.
+
+Example C08_distinct_literal_keys_probe :
+  distinct_literal_keys [(ELit (vint 1), EVar [97]); (ELit (vint 2), EVar [98])].
+Proof.
+  intros l1 p l2 q l3 H. destruct l1 as [|a l1]; cbn [app] in H.
+  - injection H as <- H. destruct l2 as [|b l2]; cbn [app] in H.
+    + injection H as <- _. exists (vint 1), (vint 2). repeat split. discriminate.
+    + injection H as _ H. destruct l2; discriminate.
+  - injection H as _ H. destruct l1 as [|b l1]; cbn [app] in H.
+    + injection H as _ H. destruct l2; discriminate.
+    + injection H as _ H. destruct l1; discriminate.
+Qed.
+
+(* any number of meaning-preserving rewrites at any positions at once, as an equivalence: exactly the same
+   function-free answers (the closure is symmetric: Proofs/CongrSymP.v) *)
+Theorem C08_simultaneous_rewrites_same_data_meaning :
+  forall R : expr -> expr -> Prop, (forall e e', R e e' -> same_meaning e e') ->
+  forall e e', crel R e e' -> same_data_meaning e e'.
+Proof. exact rewrites_everywhere_data. Qed.
+Print Assumptions C08_simultaneous_rewrites_same_data_meaning.
+
+Theorem C08_documented_rewrites_everywhere :
+  forall e e', crel Rewrite.documented e e' -> same_data_meaning e e'.
+Proof. exact documented_rewrites_everywhere_data. Qed.
+Print Assumptions C08_documented_rewrites_everywhere.
